@@ -3,7 +3,7 @@
      vtree ::= L <var> | N <vtree> <vtree>
      ops   ::= t | f | v <var> <pol> | n <i> | a <i> <j> | o <i> <j> | x <i> <j> | q <i> <j>
              | i <i> <j> <k> | c <i> <var> <0|1> | e <i> <var> | m <i> <var> <j>
-             | k <n> (<len> <lit>*)^n          compile_cnf; lit = 2*var + polarity; model: given clause order
+             | k <n> followed by n clauses, each <len> <lit>...   compile_cnf; lit = 2*var + polarity
    out:   <id> <unfolding of every pool entry> # <index of the first equal pool entry, per entry>
           with compression off AND a compile_cnf in the program the clause order after the code's
           sort is not determined, hence only denotations are: <id> <truth table of every entry> # tt
